@@ -38,8 +38,8 @@ def run(chk):
     else:
         for i, o in enumerate(ORDERS4[::4]):
             for part in range(8):
-                tasks.append(dict(n=4, order=o, via=None, us_stride=1, us_offset=0,
-                                  compose_rows=50, part=part, nparts=8))
+                tasks.append(dict(n=4, order=o, via=None, us_stride=16, us_offset=i,
+                                  compose_rows=40, part=part, nparts=8))
     for t in tasks:
         t.update(shard=chk.shard('sw_c04_%d' % tid), tid=tid, seed=chk.seed * 31 + tid)
         tid += 1
